@@ -745,7 +745,7 @@ class Executor:
                 count = '(- %s %s)' % (args[1].e, start) if step == 1 else '(- %s %s)' % (start, args[1].e)
             self._for_range(s, n, spec, SV('Int', count), st1, k, start, step)
 
-    def _for_range(self, s, n, spec, bound, st, k, start='0', step=1):
+    def _for_range(self, s, n, spec, bound, st, k, start='0', step=1, elem=None):
         """`{k}` in invariants = number of completed iterations, `{n}` = total number of iterations (if >= 0)"""
         var = s.target.id
         mods = self.assigned_names(s.body) | {var}
@@ -770,7 +770,7 @@ class Executor:
         sti.assume('(<= 0 %s)' % kk).assume('(< %s %s)' % (kk, bound.e))
         for inv in spec.inv:
             sti.assume(self.fmt(inv, sti, ex))
-        sti.env[var] = SV('Int', ival(kk))
+        sti.env[var] = elem(kk) if elem else SV('Int', ival(kk))
         sti.ghost['k%d' % n] = kk
 
         def preserve(st2):
@@ -789,7 +789,7 @@ class Executor:
         ste.assume('(<= 0 %s)' % ke).assume(OR(EQ(ke, bound.e), AND('(< %s 0)' % bound.e, EQ(ke, '0'))))
         for inv in spec.inv:
             ste.assume(self.fmt(inv, ste, exe))
-        ste.env[var] = SV('Int', ival('(- %s 1)' % ke))
+        ste.env[var] = elem('(- %s 1)' % ke) if elem else SV('Int', ival('(- %s 1)' % ke))
         ste.ghost['k%d' % n] = ke
         k.normal(ste)
 
